@@ -385,6 +385,17 @@ def request_frames(ck, agg):
     outs = nn.run(f, node, [Const(1)], st, limits=Limits(max_paths=40000, loop_unroll=2, depth=14, concrete_loop=10))
     n = 0
     seen_second = False
+    # a request reported as successful has re-addressed the node: the last _begin() on the path is given an address other than 0o4444 (the
+    # one taken from the response) - a join that "succeeds" while the node still listens on the unassigned address is deaf to its traffic
+    nsucc = 0
+    for out in outs:
+        if out.kind == "return" and value_matches(out.value, True):
+            nsucc += 1
+            bc = [e for e in out.trace if e.kind == "begin-call"]
+            agg.add("R17.6", f, "a request reported as successful has re-addressed the node with _begin(<address from the response>)",
+                    bool(bc) and const_of(norm(bc[-1].data[0])) != DEFAULT,
+                    "a path returns True after %d _begin() call(s)%s" % (len(bc), (", the last one with %r" % (bc[-1].data[0],)) if bc else " - the node keeps the unassigned address"))
+    agg.add("R17.6", f, "_request_address() has a successful path (anchor)", nsucc > 0, "no path returns True")
     for out in outs:
         wr = [e for e in out.trace if e.kind == "summary" and e.data[0] == "_write" and e.func is not None and const_of(norm(e.data[3]["args"][1])) == T.CONSTANTS["TX_PHYSICAL"]]
         for k, e in enumerate(wr):
